@@ -1601,6 +1601,60 @@ func familyKnownDeviations(r *common.Rand) {
 	}
 }
 
+// familyScriptConstants: the locking script computes on its own constants (and on an operand from the unlocking
+// script) before the signature opcode: <c1> <c2> OP ... <pk> OP_CHECKSIG. The script code the signature commits to
+// is the spent output's script as it was given, whatever the opcodes before did with the values pushed from it.
+func familyScriptConstants(r *common.Rand) {
+	type tf struct {
+		name string
+		ops  []sp.Op // consumes two operands (second on top), leaves nothing
+	}
+	drop, drop2 := sp.O(0x75), sp.O(0x6d)
+	tfs := []tf{
+		{"XOR", []sp.Op{sp.O(0x86), drop}}, {"AND", []sp.Op{sp.O(0x84), drop}}, {"OR", []sp.Op{sp.O(0x85), drop}},
+		{"INVERT", []sp.Op{sp.O(0x83), drop2}}, {"LSHIFT", []sp.Op{drop, sp.O(0x51), sp.O(0x98), drop}}, {"RSHIFT", []sp.Op{drop, sp.O(0x51), sp.O(0x99), drop}},
+		{"BIN2NUM", []sp.Op{sp.O(0x81), drop2}}, {"NUM2BIN", []sp.Op{drop, sp.O(0x54), sp.O(0x80), drop}}, {"CAT", []sp.Op{sp.O(0x7e), drop}},
+		{"SPLIT", []sp.Op{drop, sp.O(0x51), sp.O(0x7f), drop2}}, {"ADD", []sp.Op{sp.O(0x93), drop}}, {"SUB", []sp.Op{sp.O(0x94), drop}},
+		{"1ADD", []sp.Op{sp.O(0x8b), drop2}}, {"NEGATE", []sp.Op{sp.O(0x8f), drop2}}, {"ABS", []sp.Op{sp.O(0x90), drop2}}, {"NOT", []sp.Op{sp.O(0x91), drop2}},
+		{"SIZE", []sp.Op{sp.O(0x82), drop, drop2}}, {"EQUAL", []sp.Op{sp.O(0x87), drop}}, {"SWAP-XOR", []sp.Op{sp.O(0x7c), sp.O(0x86), drop}},
+		{"DUP-XOR", []sp.Op{sp.O(0x76), sp.O(0x86), drop2}}, {"OVER-AND", []sp.Op{sp.O(0x78), sp.O(0x84), drop2}}, {"MIN", []sp.Op{sp.O(0xa3), drop}},
+	}
+	vals := [][2][]byte{{{0x01, 0x00}, {0x03, 0x00}}, {{0xde, 0xad}, {0x01, 0x12}}, {{0x81, 0x00, 0x00}, {0x7f, 0x01, 0x00}}}
+	n := 0
+	for _, t := range tfs {
+		for vi, v := range vals {
+			for place := 0; place < 3; place++ { // both constants in the locking script; first / second operand from the unlocking script
+				n++
+				flags := []uint32{0, sp.FForkID, sp.FForkID | sp.FGenesis, sp.FGenesis, sp.FForkID | sp.FGenesis | sp.FNullFail | sp.FStrictEnc}[n%5]
+				if !c.Thorough() && (n+int(c.Seed))%3 != 0 && vi != 0 {
+					continue
+				}
+				b := newBuild(r, "script-constants/"+t.name, flags, 1)
+				slot := b.addSig(sigReq{Signer: 0, HT: matchingType(flags, n)})
+				pk := b.keys[0].Enc(n % 2)
+				b.scripts[0] = []sp.Op{sp.SigSlot(slot, nil, nil, 0)}
+				var lock []sp.Op
+				switch place {
+				case 0:
+					lock = []sp.Op{sp.P(v[0]), sp.P(v[1])}
+				case 1:
+					b.scripts[0] = append(b.scripts[0], sp.P(v[0]))
+					lock = []sp.Op{sp.P(v[1])}
+				case 2:
+					b.scripts[0] = append(b.scripts[0], sp.P(v[1]))
+					lock = []sp.Op{sp.P(v[0]), sp.O(0x7c)}
+				}
+				lock = append(lock, t.ops...)
+				lock = append(lock, sp.P(pk), sp.O(0xac))
+				b.scripts[1] = lock
+				b.ops = []sigOp{{script: 1, at: len(lock) - 1, slots: []int{slot}, keys: [][]byte{pk}}}
+				b.note = fmt.Sprintf("constants %x %x place=%d", v[0], v[1], place)
+				b.run()
+			}
+		}
+	}
+}
+
 func main() {
 	c = common.Parse("C06")
 	c.SetHeader(header)
@@ -1620,6 +1674,7 @@ func main() {
 	familyUnlockSeparator(r.Fork())
 	familyUnparsableSigKeys(r.Fork())
 	familyKnownDeviations(r.Fork())
-	c.Stats.Rule = "seeded secp256k1 keys; spending transactions of 1-3 inputs x 0-3 outputs with every input index; signatures by an independent spec signer (script code walked per the specification, digest, ECDSA with chosen nonce). Families: OP_CHECKSIG(VERIFY) under all 2^6 subsets of {STRICTENC, DERSIG, LOW_S, NULLDUMMY, NULLFAIL, FORKID} x both eras with conforming / high-S / hybrid-key / empty / wrong-key signatures always and rotating 15 DER shapes x 8 key encodings x 17 hash types (6 FORKID, 6 legacy, 5 undefined); OP_CODESEPARATOR at index 0, between pushes, after the operation, doubled, in taken / untaken IF and ELSE branches, in the unlocking script, each with a signature over the specified code and one over the code that ignores separators; m-of-n multisig, every arrangement of correct-for-key-j / wrong-key / wrong-digest / empty signatures exhaustively for n <= 3 (thorough: n <= 4) and sampled above (thorough: up to 20 and 21); 15 multisig scenarios (null dummy, null fail, malformed elements at examined and unexamined positions) under every flag subset; legacy signature removal (FindAndDelete of the exact push) with smallest-form / PUSHDATA1-2-4 / embedded / prefixed / suffixed copies inside and outside the script code, one-byte signatures pushed as 01 05 next to OP_5, empty signatures with OP_0 and separators in the script code, FORKID and original-digest signatures mixed in one multisig with separators after it; key-count and operation-count limits, P2SH, malformed counts, 4- / 5- / 9-byte counts in both eras with and without MINIMALDATA; R or S = n-1, n, n+1, n+5 and a 40-byte R under LOW_S with and without NULLFAIL; empty signature with 11 key encodings under 8 flag sets for OP_CHECKSIG(VERIFY); unlocking scripts ending <sig> ... OP_CODESEPARATOR OP_RETURN after genesis (no stale separator offset in the locking script); a signature the encoding check passes and go-bk cannot parse (R = 0) against malformed keys at every position; the three deviations kept as known findings (65-byte key with prefix 05, lax DER without DER flags, opcodes after a top-level OP_RETURN in the original digest), where the expected verdict is the node's (key validity by prefix and length, ecdsa_signature_parse_der_lax re-implemented in harness/sigspec). distinct = distinct (scripts, flags, transaction, index, value); non-trivial = at least one go-bk oracle query was needed"
+	familyScriptConstants(r.Fork())
+	c.Stats.Rule = "seeded secp256k1 keys; spending transactions of 1-3 inputs x 0-3 outputs with every input index; signatures by an independent spec signer (script code walked per the specification, digest, ECDSA with chosen nonce). Families: OP_CHECKSIG(VERIFY) under all 2^6 subsets of {STRICTENC, DERSIG, LOW_S, NULLDUMMY, NULLFAIL, FORKID} x both eras with conforming / high-S / hybrid-key / empty / wrong-key signatures always and rotating 15 DER shapes x 8 key encodings x 17 hash types (6 FORKID, 6 legacy, 5 undefined); OP_CODESEPARATOR at index 0, between pushes, after the operation, doubled, in taken / untaken IF and ELSE branches, in the unlocking script, each with a signature over the specified code and one over the code that ignores separators; m-of-n multisig, every arrangement of correct-for-key-j / wrong-key / wrong-digest / empty signatures exhaustively for n <= 3 (thorough: n <= 4) and sampled above (thorough: up to 20 and 21); 15 multisig scenarios (null dummy, null fail, malformed elements at examined and unexamined positions) under every flag subset; legacy signature removal (FindAndDelete of the exact push) with smallest-form / PUSHDATA1-2-4 / embedded / prefixed / suffixed copies inside and outside the script code, one-byte signatures pushed as 01 05 next to OP_5, empty signatures with OP_0 and separators in the script code, FORKID and original-digest signatures mixed in one multisig with separators after it; key-count and operation-count limits, P2SH, malformed counts, 4- / 5- / 9-byte counts in both eras with and without MINIMALDATA; R or S = n-1, n, n+1, n+5 and a 40-byte R under LOW_S with and without NULLFAIL; empty signature with 11 key encodings under 8 flag sets for OP_CHECKSIG(VERIFY); unlocking scripts ending <sig> ... OP_CODESEPARATOR OP_RETURN after genesis (no stale separator offset in the locking script); a signature the encoding check passes and go-bk cannot parse (R = 0) against malformed keys at every position; the three deviations kept as known findings (65-byte key with prefix 05, lax DER without DER flags, opcodes after a top-level OP_RETURN in the original digest), where the expected verdict is the node's (key validity by prefix and length, ecdsa_signature_parse_der_lax re-implemented in harness/sigspec); 22 value-transforming opcode snippets run on constants pushed from the locking script (and on an operand from the unlocking script) before <pk> OP_CHECKSIG: the script code stays the spent output's script. distinct = distinct (scripts, flags, transaction, index, value); non-trivial = at least one go-bk oracle query was needed"
 	c.Finish()
 }
